@@ -381,6 +381,23 @@ Section ABFProofs.
     intros [|z0 tl] j; cbn [czar_gather msum]; [reflexivity|]. apply fold_grid_add.
   Qed.
 
+  (* the CZAR gather leaves the grids of shared ABF and the z grids of every walker as they are; replica 0 ends
+     up with the sum of all z grids *)
+  Theorem czar_gather_frame : forall (ws : list (ewalker (A:=A))),
+    map e_w (czar_gather_step G ws) = map e_w ws /\ map e_z (czar_gather_step G ws) = map e_z ws /\
+    (forall r others j, ws = r :: others ->
+       exists r', czar_gather_step G ws = r' :: others /\ e_gz r' j = msum (map e_z ws) j).
+  Proof.
+    intros [|r others]; cbn [czar_gather_step map]; repeat split; auto; try discriminate.
+    intros r0 o j E. injection E as <- <-. eexists. split; [reflexivity|]. cbn [e_gz].
+    apply (czar_gather_sum (e_z r :: map e_z others)).
+  Qed.
+
+  (* a restart through a state file written by the repaired code (last_* saved) changes none of the three grids,
+     wherever it happens *)
+  Theorem restart_identity : forall t (w : W), wG (w_restart t w) = wG w /\ wL (w_restart t w) = wL w /\ wLoc (w_restart t w) = wLoc w.
+  Proof. intros; repeat split. Qed.
+
   (* replica 0 could receive the deltas in any order *)
   Theorem root_collect_order : forall r ms ms' j, Permutation ms ms' ->
     wG (root_collect G r ms) j = wG (root_collect G r ms') j.
